@@ -3,7 +3,10 @@
 //! interpreter `Abra.Sem` run on the generator's own AST (end-to-end tie), and for F0 the real
 //! unoptimised instruction stream of `<main>` is compared with the Lean compiler model `compileF0`
 //! (codegen tie, requests `cgen …`).  A difference end to end is a concrete failing program: it is
-//! shrunk and reported through `spec_fail`.
+//! shrunk and reported through `spec_fail`.  Also run: the template families of harness/src/bg9cov.rs that name C02 (Rust
+//! oracles: wide calls, void field targets, wildcard annotations, D21/D91 regressions, the pending-jump family) and, for
+//! the pending-jump family, the Pops the real translator emits per break/continue against the Lean model `Abra.Pending`
+//! (`pending …`); the three former D21 witnesses are hard regression programs.
 #[path = "../bg9cov.rs"]
 mod bg9cov;
 #[path = "../progen.rs"]
